@@ -1,4 +1,4 @@
-// VERIF: lib rc quick_shards=4
+// VERIF: lib rc quick_shards=4 fuzz=strings_random
 // C01 (container / string / filesystem part of the registry) - safe API is total.
 // Oracle: (a) the process survives ASan+UBSan+_GLIBCXX_ASSERTIONS, (b) only the documented exception
 // types escape (catch(...) around every call), (c) the watchdog, (d) a returned optional/either is
